@@ -6,6 +6,7 @@ import (
 	"go/token"
 
 	"mvdan.cc/garble/internal/symx"
+	ev "mvdan.cc/garble/internal/symxeval"
 )
 
 // H_C03_literals_deterministic: every obfuscator emits the same block when
@@ -20,22 +21,39 @@ func H_C03_literals_deterministic() {
 		}
 		return 0
 	})
-	obf := Obfuscators[symx.Choose(len(Obfuscators))]
+	// targets: the five obfuscators (with the two helpers replaced by their
+	// contracts) and the two helpers themselves
+	target := symx.Choose(len(Obfuscators) + 2)
+	if target < len(Obfuscators) {
+		installStubs()
+	}
 	n := 1 + symx.Choose(tier(2, 3))
 	data := symx.Bytes("data", n)
 	run := func() string {
+		stubByteLitCalls = 0
 		keys := []*externalKey{
 			{name: "garbleExternalKey0", typ: "uint8", value: 0x5a, bits: 8},
 			{name: "garbleExternalKey1", typ: "uint64", value: 0x1122334455667788, bits: 64},
 		}
-		blk := obf.obfuscate(symx.Rand(), append([]byte(nil), data...), keys)
+		r := symx.Rand()
+		d := append([]byte(nil), data...)
+		var node any
+		switch {
+		case target < len(Obfuscators):
+			node = Obfuscators[target].obfuscate(r, d, keys)
+		case target == len(Obfuscators):
+			node = byteLitWithExtKey(r, d[0], keys, normalProb)
+		default:
+			node = dataToByteSliceWithExtKeys(r, d, keys)
+		}
 		var buf bytes.Buffer
-		printer.Fprint(&buf, token.NewFileSet(), blk)
+		printer.Fprint(&buf, token.NewFileSet(), node)
 		return buf.String()
 	}
 	out1 := run()
 	symx.RewindDraws()
 	out2 := run()
 	symx.Reach("twice")
-	symx.Assert(out1 == out2, "the emitted literal code depends only on the seeded random source")
+	symx.Assert(ev.SameText(out1, out2), "the emitted literal code depends only on the seeded random source")
 }
+
